@@ -24,7 +24,7 @@ EXPLANATION = (
 )
 ASSUMPTIONS = ["CPython ast parses /repo's source as the interpreter would",
                "getattr/__getattr__ forwarding in FlippedSignature/FlippedInterface is opaque; only explicit methods are checked"]
-MIN_INSTANCES = {"R-14e": 2, "R-14a": 10, "R-14b": 6, "R-14c": 6, "R-14d": 5}
+MIN_INSTANCES = {"R-14h": 14, "R-14f": 3, "R-14g": 1, "R-14e": 2, "R-14a": 10, "R-14b": 6, "R-14c": 6, "R-14d": 5}
 
 
 def r14a(model, ctx):
@@ -330,4 +330,65 @@ def r14e(model, ctx):
               "taken from the literal's natural width accepts signals whose init differs in higher bits", f"{W}:{fc.lineno}")
 
 
-RULES = [("R-14e", r14e), ("R-14a", r14a), ("R-14b", r14b), ("R-14c", r14c), ("R-14d", r14d)]
+
+def r14f(model, ctx):
+    """a signature member with dimensions is a (nested) list of values: every place that applies something to "the value of
+    member X" walks the member's dimensions first (create -> create_dimensions, flatten -> iter_dimensions, is_compliant ->
+    check_dimensions, connect -> connect_dimensions, as_json -> translate_dimensions).  Sibling agreement: the flipped proxy
+    (FlippedInterface.__getattr__ / __setattr__) flips nested interfaces and must do so element by element."""
+    R = "R-14f"
+    for meth in ("__getattr__", "__setattr__"):
+        f = model.func(f"{W}::FlippedInterface.{meth}")
+        flips = [c for c in ast.walk(f) if isinstance(c, ast.Call) and (dotted(c.func) or "").split(".")[-1] in
+                 ("flipped", "FlippedInterface", "_flipped_array")]
+        need(flips, f"FlippedInterface.{meth}: the flipping of a nested interface was not found")
+        uses_dims = any(isinstance(a, ast.Attribute) and a.attr == "dimensions" for a in ast.walk(f)) or \
+            any(isinstance(c, ast.Call) and (dotted(c.func) or "").endswith("_flipped_array") for c in ast.walk(f))
+        ctx.check(uses_dims, R, f"FlippedInterface.{meth}:array-of-interfaces", "nested interfaces are flipped along the member's dimensions",
+                  f"FlippedInterface.{meth} applies flipped() to the whole value of a signature member; for a member declared with "
+                  f".array(n) that value is a list and flipped() raises TypeError: the interface created from a flipped signature "
+                  f"does not comply with it (is_compliant itself raises)", f"{W}:{f.lineno}")
+    # the helper walks exactly the declared dimensions and flips the leaves
+    h = model.func(f"{W}::_flipped_array", optional=True)
+    if h is not None:
+        from ..engine import refsem
+        fn, paths = refsem.method_paths(model, f"{W}::_flipped_array", inline=False)
+        refsem.compare(ctx, R, "_flipped_array", f"{W}:{fn.lineno}", "_flipped_array", paths, ["""
+if not dimensions:
+    return flipped(value)
+_dimension, *rest_of_dimensions = dimensions
+return [_flipped_array(item, rest_of_dimensions) for item in value]
+"""], fact="leaves flipped, one list level per dimension", why="every element of an array of nested interfaces must be flipped, "
+                       "through all declared dimensions")
+
+
+def r14g(model, ctx):
+    """connect() pairs leaves by the paths of SignatureMembers.flatten(), which (by its documentation) disregards dimensions;
+    the dimensions of a leaf port are walked by connect_dimensions, but the dimensions of an ENCLOSING signature member are
+    not part of the path, so a port inside `Out(sig).array(n)` is looked up through a list"""
+    R = "R-14g"
+    f = model.func(f"{W}::connect")
+    uses_members_flatten = any(isinstance(c, ast.Call) and unparse(c.func).endswith(".members.flatten") for c in ast.walk(f))
+    need(uses_members_flatten or any(isinstance(c, ast.Call) and "flatten" in unparse(c.func) for c in ast.walk(f)),
+         "connect: the enumeration of members was not found")
+    # some code in connect must look at the dimensions of signature members (guarded by is_signature) to expand them
+    handled = False
+    for node in ast.walk(f):
+        if isinstance(node, ast.If) and "is_signature" in unparse(node.test):
+            handled = handled or any(isinstance(a, ast.Attribute) and a.attr == "dimensions" for b in node.body for a in ast.walk(b))
+    ctx.check(handled or not uses_members_flatten, R, "connect:arrayed-nested-signature",
+              "the dimensions of nested signature members are expanded into the paths",
+              "connect() enumerates members with SignatureMembers.flatten() (paths without array indices) and never expands the "
+              "dimensions of a signature member: for interfaces with `Out(sig).array(n)` the ports inside are looked up with "
+              "getattr on a list and connect() raises AttributeError instead of connecting (or refusing with ConnectionError)",
+              f"{W}:{f.lineno}")
+
+
+
+def r14h(model, ctx):
+    """flipping and interface creation compared with their reference semantics (sa/refs/c14_wiring.py) by path summary"""
+    from .reflib import run_ref_file
+    run_ref_file(model, ctx, "R-14h", "c14_wiring")
+
+
+RULES = [("R-14h", r14h), ("R-14f", r14f), ("R-14g", r14g), ("R-14e", r14e), ("R-14a", r14a), ("R-14b", r14b), ("R-14c", r14c), ("R-14d", r14d)]
